@@ -142,14 +142,17 @@ Record frame := mkFrame {
   f_owner : option ident;      (* name of the class owning this `classes` dictionary, None for the root *)
   f_inst : bool;               (* true: the dictionary of an InstanceClass (its nested classes were
                                   instantiated eagerly, tree.py:403-426); false: of a parsed class *)
-  f_entries : list entry
+  f_entries : list entry;
+  f_limit : option nat         (* only used by the model of pymoca's definition-order rule: when the nested
+                                  class that owns this parent chain was instantiated eagerly, the entries at
+                                  index >= limit of this InstanceClass dictionary were still parsed classes *)
 }.
 Definition scope := list frame.
 
 Definition e_key (e : entry) : ident := c_name (e_def e).
 Definition entries_of (lex : path) (cs : list cdef) : list entry := map (fun c => mkEntry c lex) cs.
 Definition own_frame (c : cdef) (lex : path) : frame :=
-  mkFrame (Some (c_name c)) false (entries_of (lex ++ [c_name c]) (c_classes c)).
+  mkFrame (Some (c_name c)) false (entries_of (lex ++ [c_name c]) (c_classes c)) None.
 
 (* full_reference (ast.py:759-771): names along the parent chain, root excluded *)
 Fixpoint scope_ref (S : scope) : path :=
@@ -215,7 +218,7 @@ Fixpoint lex_frames_from (root : list cdef) (lex : path) (cs : list cdef) (p : p
   end.
 
 Definition lex_scope (root : list cdef) (p : path) : scope :=
-  lex_frames_from root [] root p [mkFrame None false (entries_of [] root)].
+  lex_frames_from root [] root p [mkFrame None false (entries_of [] root) None].
 
 (* the synthesized class of find_class(check_builtin_classes=True), ast.py:702-714 *)
 Definition builtin_class (t : ident) : cdef :=
